@@ -61,15 +61,15 @@ macro_rules! with_cap {
             22 => arm!(22), 23 => arm!(23), 24 => arm!(24), 25 => arm!(25), 26 => arm!(26), 27 => arm!(27), 28 => arm!(28),
             29 => arm!(29), 30 => arm!(30), 31 => arm!(31), 32 => arm!(32), 33 => arm!(33), 34 => arm!(34), 35 => arm!(35),
             36 => arm!(36), 40 => arm!(40), 48 => arm!(48), 63 => arm!(63), 64 => arm!(64), 65 => arm!(65), 127 => arm!(127),
-            128 => arm!(128), 129 => arm!(129), 255 => arm!(255), 256 => arm!(256), 257 => arm!(257), 1024 => arm!(1024),
+            128 => arm!(128), 129 => arm!(129), 254 => arm!(254), 255 => arm!(255), 256 => arm!(256), 257 => arm!(257), 258 => arm!(258), 259 => arm!(259), 260 => arm!(260), 509 => arm!(509), 510 => arm!(510), 511 => arm!(511), 512 => arm!(512), 1024 => arm!(1024),
             4096 => arm!(4096),
             _ => None,
         }
     }};
 }
-pub const HCAPS: [usize; 51] = [
+pub const HCAPS: [usize; 59] = [
     0, 1, 2, 3, 4, 5, 6, 7, 8, 9, 10, 11, 12, 13, 14, 15, 16, 17, 18, 19, 20, 21, 22, 23, 24, 25, 26, 27, 28, 29, 30, 31, 32,
-    33, 34, 35, 36, 40, 48, 63, 64, 65, 127, 128, 129, 255, 256, 257, 1024, 4096, 4096,
+    33, 34, 35, 36, 40, 48, 63, 64, 65, 127, 128, 129, 254, 255, 256, 257, 258, 259, 260, 509, 510, 511, 512, 1024, 4096, 4096,
 ];
 
 pub const ALGS: [&str; 10] = [
@@ -702,7 +702,35 @@ pub fn gen_c05(r: &mut Rng, thorough: bool, out: &mut Vec<String>) {
     // a long value crossing the 254-byte COBS block and the 127/128 length boundary
     cases.push((DTy::Bytes, DVal::Bytes(vec![7u8; 254])));
     cases.push((DTy::Str, DVal::Str("a".repeat(128))));
+    // COBS block boundary under fixed storage: the plain encoding ends in / continues after a run of exactly
+    // 253 / 254 / 255 non-zero bytes (length prefix included), followed by end of data, a zero, or a non-zero byte;
+    // every capacity from just before the first block boundary to past the end is tried (slice and heapless)
+    let first_boundary = cases.len();
+    for n in [251usize, 252, 253, 506] {
+        let body = DVal::Bytes((0..n).map(|i| 1 + (i % 250) as u8).collect());
+        cases.push((DTy::Bytes, body.clone()));
+        for tail in [0u128, 9] {
+            cases.push((DTy::Tuple(vec![DTy::Bytes, DTy::U(8)]), DVal::Tuple(vec![body.clone(), DVal::U(8, tail)])));
+        }
+    }
     for (ci, (_t, v)) in cases.iter().enumerate() {
+        if ci >= first_boundary {
+            out.push(format!("size {}", v));
+            for framing in ["cobs", "plain", "CRC_16_XMODEM"] {
+                let full = match unbounded(framing, v) {
+                    Some(Ok(b)) => b.len(),
+                    _ => continue,
+                };
+                let lo = if framing == "cobs" { 250 } else { full - 3 };
+                for cap in (lo..=full + 2).filter(|c| framing != "cobs" || *c <= 262 || *c + 8 >= full || (505..=516).contains(c)) {
+                    out.push(format!("sercap {} slice {} {}", framing, cap, v));
+                    if HCAPS.contains(&cap) {
+                        out.push(format!("sercap {} hvec {} {}", framing, cap, v));
+                    }
+                }
+            }
+            continue;
+        }
         out.push(format!("size {}", v));
         let framings: Vec<&str> = if ci % 3 == 0 { vec!["plain", "cobs", *r.pick(&ALGS)] } else { vec![*r.pick(&["plain", "cobs"]), *r.pick(&ALGS)] };
         for framing in framings {
@@ -788,6 +816,31 @@ pub fn gen_c06(r: &mut Rng, thorough: bool, out: &mut Vec<String>) {
                 // too-small storage: must report buffer-full, never panic
                 let cap = r.below(full as u64) as usize;
                 out.push(format!("cobsenc slice {} {}", cap, hex(m)));
+            }
+        }
+    }
+    // fixed storage whose capacity ends at / just around a block boundary or the end of the frame:
+    // buffer-full exactly when the frame does not fit, never a panic, whatever follows the full block
+    for base in [254usize, 508] {
+        for n in [base - 1, base, base + 1] {
+            let mut family: Vec<Vec<u8>> = vec![vec![0x11; n]];
+            let mut m = vec![0x33; n];
+            m.push(0);
+            family.push(m);
+            let mut m = vec![0x55; n];
+            m.extend([0, 0, 1]);
+            family.push(m);
+            let mut m = vec![0x66; n];
+            m.extend([7, 7]);
+            family.push(m);
+            for m in family {
+                let full = m.len() + m.len() / 254 + 2;
+                for cap in (base - 3..=base + 5).chain(full.saturating_sub(4)..=full + 1) {
+                    out.push(format!("cobsenc slice {} {}", cap, hex(&m)));
+                    if HCAPS.contains(&cap) {
+                        out.push(format!("cobsenc hvec {} {}", cap, hex(&m)));
+                    }
+                }
             }
         }
     }
@@ -916,6 +969,43 @@ pub fn gen_c10(r: &mut Rng, thorough: bool, out: &mut Vec<String>) {
         for _ in 0..nraw / 10 {
             let n = r.range(0, 70) as usize;
             out.push(format!("crcraw {} {}", alg, hex(&r.bytes(n))));
+        }
+    }
+    // long block writes / block reads (str and bytes bodies reach the modifier through try_extend / try_take_n):
+    // the checksum must cover every byte of the block, whatever its length
+    let lens: Vec<usize> = if thorough { (14..=70).chain([95, 96, 97, 127, 128, 129, 191, 255, 256, 257, 300, 511, 513]).collect() } else { vec![15, 16, 17, 31, 32, 33, 47, 63, 64, 65, 100, 129, 255, 300] };
+    for (ai, alg) in ALGS.iter().enumerate() {
+        for (li, len) in lens.iter().enumerate() {
+            if !thorough && (ai + li) % 3 != 0 {
+                continue;
+            }
+            let body = r.bytes(*len);
+            let text: String = body.iter().map(|b| (b'a' + b % 26) as char).collect();
+            let (t, v) = match (ai + li) % 3 {
+                0 => (DTy::Bytes, DVal::Bytes(body)),
+                1 => (DTy::Str, DVal::Str(text)),
+                _ => (DTy::Tuple(vec![DTy::U(16), DTy::Str, DTy::Bytes]), DVal::Tuple(vec![DVal::U(16, 300), DVal::Str(text), DVal::Bytes(body)])),
+            };
+            out.push(format!("crcser {} {}", alg, v));
+            let f = match crc_allocvec(alg, &v) {
+                Some(Ok(f)) => f,
+                _ => continue,
+            };
+            let nb = alg_nbytes(alg);
+            let paylen = f.len() - nb;
+            out.push(format!("crcde {} {} {}", alg, t, hex(&f)));
+            // every single-bit flip in the first 4 and the last 40 payload bytes and in the checksum
+            for bit in (0..f.len() * 8).filter(|b| b / 8 < 4 || b / 8 + 40 >= paylen) {
+                let mut c = f.clone();
+                c[bit / 8] ^= 1 << (bit % 8);
+                out.push(format!("crcdex {} {} {} {}", alg, t, paylen, hex(&c)));
+            }
+            // one flipped bit per payload byte elsewhere
+            for k in 4..paylen.saturating_sub(40) {
+                let mut c = f.clone();
+                c[k] ^= 1 << (k % 8);
+                out.push(format!("crcdex {} {} {} {}", alg, t, paylen, hex(&c)));
+            }
         }
     }
     let n = if thorough { 3000 } else { 120 };
